@@ -172,6 +172,10 @@ def part_maps(ctx, cuqi, gs, thorough):
             add(g, "fun2par", ints(rng, g.fun_shape + (ns,)), "batch")
         add(g, "fun2vec", ints(rng, g.fun_shape), "single")
         add(g, "vec2fun", ints(rng, (int(np.prod(g.fun_shape)),)), "single")
+        # the vector-form maps called directly on batches (matrix of columns)
+        for ns in (2, 3):
+            add(g, "fun2vec", ints(rng, g.fun_shape + (ns,)), "batch")
+            add(g, "vec2fun", ints(rng, (int(np.prod(g.fun_shape)), ns)), "batch")
         # malformed: wrong size, transposed batch, extra axis
         add(g, "par2fun", ints(rng, (g.par_dim + 1,)), "malformed")
         add(g, "par2fun", ints(rng, (2, g.par_dim)), "malformed")
@@ -328,6 +332,47 @@ def oracle_maps(ctx, key, g, rng):
             f2 = call(o.vec2fun, v) if not isinstance(v, BaseException) else v
             if isinstance(f2, BaseException) or not eq(f2, f):
                 ctx.fail(k("vec-roundtrip:single") + usuf, {**d, "p": p.tolist()}, "vec2fun(fun2vec(f)) == f", short(repr(f2)))
+            if trial == 0:
+                img = ("Image2D" in g.name or "Default2D" in g.name) and "visual" not in g.name
+                vec_batch_oracle(ctx, k, d, o, g.fun_shape, tuple(vs), rng, tol,
+                                 fun2vec_key="fun2par:batch:not-columnwise" if img else "fun2vec:batch:not-columnwise")
+
+
+def vec_batch_oracle(ctx, k, d, o, fun_shape, vec_shape, rng, tol=1e-11, fun2vec_key="fun2vec:batch:not-columnwise", unit=False):
+    """implementation only: fun2vec / vec2fun called DIRECTLY on a matrix of columns act column-wise, and
+    vec2fun(fun2vec(F)) = F (also with the function values held in a CUQIarray)"""
+    from cuqi.array import CUQIarray
+    aeq = lambda a, b: np.shape(a) == np.shape(b) and np.allclose(a, b, rtol=tol, atol=tol)
+    for ns in (2, 3):
+        F = ints(rng, tuple(fun_shape) + (ns,))
+        V = call(o.fun2vec, F.copy())
+        cols = [call(o.fun2vec, np.ascontiguousarray(F[..., i])) for i in range(ns)]
+        if any(isinstance(c, BaseException) for c in cols):
+            continue   # no vector form for single functions: nothing to demand for batches
+        ref = np.stack([np.asarray(c) for c in cols], axis=-1)
+        dd = {**d, "F": short(F.tolist(), 200)}
+        if isinstance(V, BaseException) or not aeq(np.asarray(V), ref):
+            ctx.fail(k(fun2vec_key), dd, short(ref.tolist()), short(repr(V)),
+                     "fun2vec of a matrix of function-value columns is not the column-wise map (shape funvec_shape+(Ns,))")
+        else:
+            back = call(o.vec2fun, np.asarray(V))
+            if isinstance(back, BaseException) or not aeq(np.asarray(back), F):
+                ctx.fail(k("vec-roundtrip:batch"), dd, short(F.tolist()), short(repr(back)), "vec2fun(fun2vec(F)) != F for a batch")
+        W = ints(rng, tuple(vec_shape) + (ns,))
+        G = call(o.vec2fun, W.copy())
+        gcols = [call(o.vec2fun, np.ascontiguousarray(W[..., i])) for i in range(ns)]
+        if not any(isinstance(c, BaseException) for c in gcols):
+            gref = np.stack([np.asarray(c) for c in gcols], axis=-1)
+            if isinstance(G, BaseException) or not aeq(np.asarray(G), gref):
+                ctx.fail(k("vec2fun:batch:not-columnwise"), {**d, "V": short(W.tolist(), 200)}, short(gref.tolist()), short(repr(G)),
+                         "vec2fun of a matrix of vector-form columns is not the column-wise map")
+    # single function held in a CUQIarray
+    f1 = ints(rng, tuple(fun_shape))
+    ca = call(lambda: CUQIarray(f1.copy(), is_par=False, geometry=o))
+    if not isinstance(ca, BaseException):
+        v1, vc = call(o.fun2vec, f1.copy()), call(o.fun2vec, ca)
+        if not isinstance(v1, BaseException) and (isinstance(vc, BaseException) or not aeq(np.asarray(vc), np.asarray(v1))):
+            ctx.fail(k("fun2vec:CUQIarray"), {**d, "f": short(f1.tolist())}, short(repr(v1)), short(repr(vc)), "fun2vec of a CUQIarray differs from fun2vec of its numbers")
 
 
 # ----------------------------------------------------------------------------- part B: step expansion partitions
@@ -576,6 +621,9 @@ def kl_oracle(ctx, key, desc, geom, m, N, P, Fv, key0="KLExpansion", usuf=""):
         pcols = np.stack([np.asarray(call(geom.fun2par, Fv[:, i].copy())).reshape(m) for i in range(Fv.shape[1])], axis=-1)
         if isinstance(pc, BaseException) or not np.allclose(np.asarray(pc).reshape(m, -1), pcols, rtol=1e-11, atol=1e-11):
             ctx.fail(k("fun2par:not-columnwise"), desc, short(pcols.tolist()), short(repr(pc)), "batch is not column-wise")
+    # vector-form maps directly on batches
+    if N >= 2 and key is None:
+        vec_batch_oracle(ctx, k, desc, geom, (N,), (N,), np.random.RandomState(1000 * N + m), 1e-11)
     # projection idempotent
     Fv1 = Fv.reshape(N, -1)[:, 0]
     a = call(geom.fun2par, Fv1.copy())
@@ -1016,6 +1064,10 @@ def part_mapped(ctx, cuqi, thorough):
                     pc = np.stack([np.asarray(call(m.fun2par, F[..., j].copy())) for j in range(ns)], axis=-1)
                     if not _cmp(p_impl, pc, tol):
                         ctx.fail(key + ":fun2par:not-columnwise", desc, short(pc.tolist()), short(np.asarray(p_impl).tolist()))
+        if ns == 2 and iname != "Image2D":
+            vs_, fs_ = call(lambda: m.funvec_shape), call(lambda: m.fun_shape)
+            if not isinstance(vs_, BaseException) and not isinstance(fs_, BaseException):
+                vec_batch_oracle(ctx, lambda sfx: key + ":" + sfx, desc, m, tuple(fs_), tuple(vs_), np.random.RandomState(ctx.seed + 77), 1e-9)
         # containers
         if ns is not None:
             S = call(lambda: Samples(P.copy(), geometry=m))
